@@ -296,6 +296,42 @@ def gen_case(rng, style, mag, rect=None):
                 P.append((c[0] - s * d[0], c[1] - s * d[1]) if rng.chance(1, 2) else c)
             else:
                 P.append((sp(l, rr), sp(t, b)))
+    elif style == 'hugout':
+        # simple polygon that lies OUTSIDE the rectangle but runs along one, two or three of its sides (U, L and I shapes whose
+        # inner boundary is the side line itself or a unit or more away): every rectangle corner can lie ON the polygon although
+        # the polygon contains no interior point of the rectangle ("path contains rect?" must not be decided by the corners)
+        g = rng.choice([1, 2, 5, max(1, w // 3), max(1, mag // 8)])                 # band thickness
+        a = [rng.choice([0, 0, 0, 1, 2, max(1, h // 5)]) for _ in range(3)]         # gaps between the sides and the notch (0 = on the side)
+        e = rng.choice([0, 0, 1, -1, max(1, h // 4), -max(1, h // 4), g])            # how far the prongs reach past the open side
+        nl, nr, nb, nt = l - a[0], rr + a[1], b + a[2], t - e
+        shape = rng.below(4)
+        if shape <= 1:      # U open towards -y
+            P = [(nl - g, nt), (nl, nt), (nl, nb), (nr, nb), (nr, nt), (nr + g, nt), (nr + g, nb + g), (nl - g, nb + g)]
+        elif shape == 2:    # L along the left and bottom sides
+            P = [(nl - g, nt), (nl, nt), (nl, nb), (rr + e, nb), (rr + e, nb + g), (nl - g, nb + g)]
+        else:               # I: a band along the left side
+            P = [(nl - g, nt), (nl, nt), (nl, b + e), (nl - g, b + e)]
+        if rng.chance(1, 3):    # extra collinear vertices at the corners / side midpoints
+            Q = []
+            for k in range(len(P)):
+                p0, p1 = P[k], P[(k + 1) % len(P)]
+                Q.append(p0)
+                for c in [(l, t), (rr, t), (rr, b), (l, b), (l, cy), (rr, cy), (cx, b)]:
+                    if c != p0 and c != p1 and (p1[0] - p0[0]) * (c[1] - p0[1]) - (p1[1] - p0[1]) * (c[0] - p0[0]) == 0 and min(p0[0], p1[0]) <= c[0] <= max(p0[0], p1[0]) and min(p0[1], p1[1]) <= c[1] <= max(p0[1], p1[1]) and rng.chance(1, 2):
+                        Q.append(c)
+            P = Q
+        # symmetries of the picture: flips keep the rectangle, the transposition swaps its roles (the rectangle is mapped too)
+        if rng.chance(1, 2):
+            P = [(l + rr - x, y) for x, y in P]
+        if rng.chance(1, 2):
+            P = [(x, t + b - y) for x, y in P]
+        if rng.chance(1, 2):
+            P = [(y, x) for x, y in P]
+            r = [t, l, b, rr]
+        if rng.chance(1, 2):
+            P.reverse()
+        k = rng.below(len(P))
+        P = P[k:] + P[:k]
     else:
         raise ValueError(style)
     P = [(clamp(x), clamp(y)) for x, y in P]
@@ -370,7 +406,7 @@ def gen_group(rng, mag):
     return [dict(rect=list(r), path=gen_group_path(rng, r, k, mag), style='group:' + k, mag=mag) for k in kinds]
 
 
-STYLES = ['star', 'enclose', 'spiral', 'snake', 'rectil', 'corner', 'star', 'snake'] + C09.STYLES
+STYLES = ['star', 'enclose', 'spiral', 'snake', 'rectil', 'corner', 'star', 'snake', 'hugout'] + C09.STYLES
 MAGS = [6, 30, 1000, 1 << 20, 1 << 25, 1 << 30, 1 << 38, 1 << 36]
 
 
